@@ -16,12 +16,12 @@ def mkMount (id srv dev : Nat) (classes : List Class) : Mount :=
 def wSorter (env : Env) : Class → List Slot → List Slot := fun c l => isort (fun a b => !less env c b a) l
 
 /-- services ranked in index order, devices compared by number, TTL boundary at mtime 1000 -/
-def wEnv (desired : Class → Nat) : Env :=
-  { rank := fun s => s, devLess := fun a b => decide (a < b), minMtime := 1000, desired := desired }
+def wEnv (desired : List (Class × Nat)) : Env :=
+  { rank := fun s => s, devLess := fun a b => decide (a < b), minMtime := 1000, desiredMap := desired }
 
 /-! F1: five single-mount servers ranked: blank (empty), blank (empty), device 7, device 7 again,
 device 8 holding an older replica; class 0 (`default`) desired 2. -/
-def f1Env : Env := wEnv (fun c => if c = 0 then 2 else 0)
+def f1Env : Env := wEnv [(0, 2)]
 def f1Mounts : List Mount :=
   [mkMount 0 0 0 [0], mkMount 1 1 0 [0], mkMount 2 2 7 [0], mkMount 3 3 7 [0], mkMount 4 4 8 [0]]
 def f1Reps : List Replica := [⟨2, 2, 900⟩, ⟨3, 3, 900⟩, ⟨4, 4, 800⟩]
@@ -29,13 +29,13 @@ def f1Result : Result := balanceBlock f1Env [0] (wSorter f1Env) f1Mounts f1Reps
 
 /-! F2: class 1 (`special`) desired 2; server 0 has two `special` mounts (devices 1, 2) holding the
 block, server 1 a `default` mount (device 3) holding it. -/
-def f2Env : Env := wEnv (fun c => if c = 1 then 2 else 0)
+def f2Env : Env := wEnv [(1, 2)]
 def f2Mounts : List Mount := [mkMount 0 0 1 [1], mkMount 1 0 2 [1], mkMount 2 1 3 [0]]
 def f2Reps : List Replica := [⟨0, 0, 900⟩, ⟨1, 0, 901⟩, ⟨2, 1, 902⟩]
 def f2Result : Result := balanceBlock f2Env [0, 1] (wSorter f2Env) f2Mounts f2Reps
 
 /-! F12: one read-only mount, no replica, class 0 desired 2. -/
-def f12Env : Env := wEnv (fun c => if c = 0 then 2 else 0)
+def f12Env : Env := wEnv [(0, 2)]
 def f12Mounts : List Mount := [{ mkMount 0 0 0 [0] with ro := true }]
 def f12Result : Result := balanceBlock f12Env [0] (wSorter f12Env) f12Mounts []
 
@@ -43,7 +43,7 @@ def f12Result : Result := balanceBlock f12Env [0] (wSorter f12Env) f12Mounts []
 devices; ranks 0..3; replicas: server 1 (new), server 2 (old), server 3 (old); desired 2.
 Server 0 is wanted and empty (pull), server 1 stays, server 2 is protected (kept), server 3 is
 trashed. -/
-def okEnv : Env := wEnv (fun c => if c = 0 then 2 else 0)
+def okEnv : Env := wEnv [(0, 2)]
 def okMounts : List Mount := [mkMount 0 0 1 [0], mkMount 1 1 2 [0], mkMount 2 2 3 [0], mkMount 3 3 0 [0]]
 def okReps : List Replica := [⟨1, 1, 1005⟩, ⟨2, 2, 900⟩, ⟨3, 3, 800⟩]
 def okResult : Result := balanceBlock okEnv [0] (wSorter okEnv) okMounts okReps
@@ -59,19 +59,19 @@ def rawLayout : List RawService :=
 
 /-! F05a: two class-0 (`default`) mounts holding old replicas; the block is wanted only in class 5,
 which no mount offers (so it is not among `bal.classes` = [0]), with replication 2. -/
-def f05aEnv : Env := wEnv (fun c => if c = 5 then 2 else 0)
+def f05aEnv : Env := wEnv [(5, 2)]
 def f05aMounts : List Mount := [mkMount 0 0 0 [0], mkMount 1 1 0 [0]]
 def f05aReps : List Replica := [⟨0, 0, 900⟩, ⟨1, 1, 901⟩]
 def f05aResult : Result := balanceBlock f05aEnv [0] (wSorter f05aEnv) f05aMounts f05aReps
 
 /-! Why device consistency is assumed: device 7 is reported in class 0 by server 0 and in class 1
 by server 1; class 0 desired 1. -/
-def ncEnv : Env := wEnv (fun c => if c = 0 then 1 else 0)
+def ncEnv : Env := wEnv [(0, 1)]
 def ncMounts : List Mount := [mkMount 0 0 7 [0], mkMount 1 1 7 [1], mkMount 2 2 8 [0]]
 def ncReps : List Replica := [⟨0, 0, 900⟩, ⟨1, 1, 900⟩, ⟨2, 2, 800⟩]
 def ncResult : Result := balanceBlock ncEnv [0, 1] (wSorter ncEnv) ncMounts ncReps
 
-def roEnv : Env := wEnv (fun c => if c = 1 then 1 else 0)
+def roEnv : Env := wEnv [(1, 1)]
 def roReps : List Replica := [⟨0, 0, 900⟩, ⟨2, 1, 800⟩, ⟨3, 2, 700⟩]
 
 end ArvVerif.C05
